@@ -493,6 +493,11 @@ impl AdaptiveCompressor {
 
         let mut hasher = DefaultHasher::new();
 
+        // Nothing to sample from an empty payload (data[0] below would panic)
+        if data.is_empty() {
+            return hasher.finish();
+        }
+
         // Sample bytes from different parts of the data
         let sample_size = (data.len() / 10).max(1).min(1000);
         for i in 0..sample_size {
